@@ -496,6 +496,20 @@ def fingerprint(obj):
     return hashlib.sha256(json.dumps(obj, sort_keys=True).encode()).hexdigest()[:16]
 
 
+class SubRun:
+    def __init__(self, parent):
+        self.pid, self.tier, self.seed, self.workdir = parent.pid, parent.tier, parent.seed, parent.workdir
+        self.traces = self.events = self.cases = 0
+        self.violations = []
+        self.mc = []
+
+    def violation(self, key, what, replay):
+        self.violations.append((key, what, replay))
+
+    def add_mc(self, name, res):
+        self.mc.append((name, res))
+
+
 class Run:
     """Bookkeeping for one check run of one property."""
 
@@ -526,6 +540,18 @@ class Run:
 
     def violation(self, key, what, replay):
         self.violations.append((key, what, replay))
+
+    def sub(self):
+        """an accumulator with the same surface for work done in a worker thread; merge() it back in a fixed order"""
+        return SubRun(self)
+
+    def merge(self, sub):
+        self.traces += sub.traces
+        self.events += sub.events
+        self.cases += sub.cases
+        self.violations += sub.violations
+        for name, res in sub.mc:
+            self.add_mc(name, res)
 
     def finish(self, rule, extra=None):
         known = load_known()
